@@ -31,13 +31,24 @@ type c15Cfg struct {
 	// LateCDP > 0: that long after the start instance 0 sees a handshake naming a distribution point it has not seen
 	// before (in fetch_background this starts a forced update between two ticks)
 	LateCDP time.Duration
+	// OldMtime: the replacement of a crl_file carries a modification time older than the file it replaces (cp -p, rsync -t,
+	// restored backups)
+	OldMtime bool
+	// LateEvery: before every tick (3 minutes earlier) instance 0 sees a handshake naming yet another new distribution point
+	LateEvery bool
 }
 
 func (c c15Cfg) String() string {
 	sm := map[config.SignatureValidationMode]string{config.SignatureValidationModeVerify: "verify", config.SignatureValidationModeVerifyLog: "verify_log", config.SignatureValidationModeNone: "none"}[c.Sig]
 	late := ""
+	if c.OldMtime {
+		late = " replacement-with-older-mtime"
+	}
+	if c.LateEvery {
+		late += " new-cdp-before-every-tick"
+	}
 	if c.LateCDP > 0 {
-		late = fmt.Sprintf(" new-cdp-at=+%s", c.LateCDP)
+		late += fmt.Sprintf(" new-cdp-at=+%s", c.LateCDP)
 	}
 	return fmt.Sprintf("instances=%d intervals=%v phases=%v download=%s script=%q sig=%s background=%v source=%s%s", c.N, c.Intervals, c.Phases, c.Dur, c.Script, sm, c.Background, c.Source, late)
 }
@@ -156,7 +167,16 @@ func c15Run(cfg c15Cfg) (o c15Obs) {
 		checked := make([]bool, cfg.N)
 		const urlLate = "http://crl.test/late.crl"
 		lateDone := false
+		lateK := 1
 		for vsched.Now().Before(start.Add(horizon)) {
+			if cfg.LateEvery && !vsched.Now().Before(start.Add(time.Duration(lateK)*cfg.Intervals[0]-3*time.Minute)) {
+				u := fmt.Sprintf("http://crl.test/late%d.crl", lateK)
+				net.Routes[u] = &world.Behaviour{Label: "late", Delay: cfg.Dur, Body: world.SimpleCRL(p.CA, 1, 811).DER()}
+				l := world.Leaf(p.CA, bi(int64(820+lateK)), []string{u}, nil)
+				ws[0].Lookup(l, world.Chain(l, p.CA, p.Root))
+				vsched.Drain()
+				lateK++
+			}
 			if cfg.LateCDP > 0 && !lateDone && !vsched.Now().Before(start.Add(cfg.LateCDP)) {
 				lateDone = true
 				net.Routes[urlLate] = &world.Behaviour{Label: "late", Delay: cfg.Dur, Body: world.SimpleCRL(p.CA, 1, 811).DER()}
@@ -169,6 +189,10 @@ func c15Run(cfg c15Cfg) (o c15Obs) {
 				if cfg.Source == "crl_files" {
 					for i := 0; i < cfg.N; i++ {
 						os.WriteFile(fileOf(i), v2, 0644)
+						if cfg.OldMtime {
+							old := time.Date(2001, 2, 3, 4, 5, 6, 0, time.UTC)
+							os.Chtimes(fileOf(i), old, old)
+						}
 						publishedAt[i] = vsched.Now()
 					}
 				}
@@ -245,6 +269,16 @@ func c15Configs(tier string) []c15Cfg {
 				}
 			}
 		}
+	}
+	// new distribution points keep arriving shortly before every tick
+	for _, src := range []string{"crl_urls", "cdp"} {
+		for _, bg := range []bool{false, true} {
+			out = append(out, c15Cfg{N: 1, Intervals: []time.Duration{I}, Script: "", Sig: config.SignatureValidationModeVerify, Background: bg, Source: src, LateEvery: true})
+		}
+	}
+	// a crl_file replaced by a newer list whose modification time is older
+	for _, bg := range []bool{false, true} {
+		out = append(out, c15Cfg{N: 1, Intervals: []time.Duration{I}, Script: "", Sig: config.SignatureValidationModeVerify, Background: bg, Source: "crl_files", OldMtime: true})
 	}
 	// a distribution point seen for the first time between two ticks (2 and 7 minutes after the second tick)
 	for _, src := range []string{"crl_urls", "cdp"} {
